@@ -725,6 +725,13 @@ func (s *Script) DeclareFun(name string, args []Sort, res Sort) {
 
 func (s *Script) Declared(name string) bool { return s.decl[name] }
 
+// FreshFun declares a new uninterpreted function and returns its name.
+func (s *Script) FreshFun(hint string, args []Sort, res Sort) string {
+	name := s.freshName(hint)
+	s.DeclareFun(name, args, res)
+	return name
+}
+
 func (s *Script) Assert(t *Term, comment string) {
 	if t == True {
 		return
